@@ -130,7 +130,7 @@ class C20(vlib.Check):
             return a
         it = iter(a["ok"])
         out = {}
-        defaults = P.params_to_sections_dict(P.read_params(None, fill_defaults=True), auto=True) if case["fill"] else {}
+        defaults = packaged_defaults() if case["fill"] else {}
         for sec in SECTIONS:
             d = dict((k, tag(v)) for k, v in defaults.get(sec, {}).items())
             for k, v in case["opts"][sec]:
@@ -162,8 +162,7 @@ class C20(vlib.Check):
                     if type(got) is not type(v) or got != v:
                         return {"key": "roundtrip-differs:%s" % type(v).__name__, "what": "%s.%s written as %r reads back as %r" % (sec, k, v, got)}
             if case["fill"]:
-                from e3fp.config import params as P
-                d = P.params_to_sections_dict(P.read_params(None, fill_defaults=True), auto=True)
+                d = packaged_defaults()
                 for sec in SECTIONS:
                     given = {k.lower() for k, _ in case["opts"][sec]}
                     for k, v in d.get(sec, {}).items():
@@ -220,6 +219,21 @@ class C20(vlib.Check):
 
 def tag_val(v):
     return tag(v)
+
+
+def packaged_defaults():
+    """defaults.cfg parsed here, without going through e3fp.config.params (whose state a defect could pollute)"""
+    cp = configparser.ConfigParser()
+    cp.read(os.path.join(vlib.REPO, "src", "e3fp", "config", "defaults.cfg"))
+    out = {}
+    for sec in cp.sections():
+        out[sec] = {}
+        for k, raw in cp.items(sec):
+            try:
+                out[sec][k] = ast.literal_eval(raw)
+            except (ValueError, SyntaxError):
+                out[sec][k] = raw
+    return out
 
 
 def untag(t):
